@@ -1,1 +1,3 @@
+pub mod bf;
+pub mod fp;
 pub mod ground;
